@@ -5,6 +5,7 @@ import Claripy.AST.Subst
 import Claripy.AST.Truth
 import Claripy.AST.ACNorm
 import Claripy.AST.Bits
+import Claripy.AST.IteReloc
 /-! S-expression reader/printer and the `ev` / `fold` / `rules` requests of the line protocol. -/
 namespace Driver.Expr
 open Claripy.AST
@@ -125,6 +126,20 @@ def handleBits (toks : List String) : String :=
   match parseExpr pre, parseExpr (post.drop 1) with
   | some lhs, some rhs => if bitsEquiv lhs rhs then "1" else "0"
   | _, _ => "bad-op"
+
+/-- `excavate <sexpr>` / `burrow <sexpr>` : the ITE relocation algorithms with the raw node constructor and the `Not` simplifier
+(the harness rebuilds the answer through the real constructors and requires the object the real algorithm returned) -/
+partial def exprSize : Expr → Nat
+  | .app _ args => 1 + (args.map exprSize).foldl (· + ·) 0
+  | _ => 1
+def handleExcavate (toks : List String) : String :=
+  match parseExpr toks with
+  | some e => toSexpr (excavate (fun op args => .app op args) mkNot e)
+  | none => "bad-op"
+def handleBurrow (toks : List String) : String :=
+  match parseExpr toks with
+  | some e => toSexpr (burrow (fun op args => .app op args) (exprSize e + 1) e)
+  | none => "bad-op"
 
 /-- `meta <sexpr>` : width / variables / depth / symbolic as the model computes them -/
 def handleMeta (toks : List String) : String :=
